@@ -536,12 +536,28 @@ def task_y(path=Path("x.txt"), produces=Path("y.txt")):
 }
 
 
+PDB_MODULE = '''\
+"""non-interactive debugger class handed to pytask as pdbcls: every prompt is answered with `continue`"""
+import io
+import pdb
+
+
+class ContPdb(pdb.Pdb):
+    def __init__(self, *a, **k):
+        k.pop("stdin", None)
+        k.pop("stdout", None)
+        super().__init__(*a, stdin=io.StringIO("continue\\n" * 200), stdout=io.StringIO(), **k)
+        self.use_rawinput = False
+'''
+
+
 def write_seq_project(root: Path) -> None:
     root.mkdir(parents=True, exist_ok=True)
     (root / "pyproject.toml").write_text('[tool.pytask.ini_options]\nmarkers = {mine = "a marker of this project"}\n')
     for sub, (fname, src, _, _) in SUBS.items():
         (root / sub).mkdir()
         (root / sub / fname).write_text(src)
+    (root / "c15pdb.py").write_text(PDB_MODULE)
     # a project root of its own: its configuration file turns user warnings into errors
     (root / "warncfg" / "pyproject.toml").write_text('[tool.pytask.ini_options]\nfilterwarnings = ["error::UserWarning"]\n')
 
@@ -572,6 +588,10 @@ def gen_seq(rng, idx: int, n=(2, 8)) -> dict:
         if rng.random() < 0.35:
             kw["filterwarnings"] = rng.choice([["error::UserWarning"], ["ignore::DeprecationWarning"],
                                                ["error::DeprecationWarning", "ignore::UserWarning"], ["ignore"]])
+        if sub in ("fail", "marked", "ok", "warn") and rng.random() < 0.2:
+            # post-mortem debugging of failing tasks, answered by a non-interactive debugger class
+            kw["pdb"] = True
+            kw["pdbcls"] = ["c15pdb", "ContPdb"]
         if rng.random() < 0.07:
             extra["corrupt_db"] = True   # configuration fails in database.pytask_post_parse
         if rng.random() < 0.2:
@@ -587,7 +607,13 @@ def gen_seq(rng, idx: int, n=(2, 8)) -> dict:
         # a task that closes sys.stdout while it is captured; last build of the process (it may wreck the interpreter's streams),
         # never with capture=no (there it would close the caller's own stream)
         builds.append({"sub": "closer", "kw": {"capture": rng.choice(["sys", "tee-sys", "fd"]), "verbose": 1, "force": True}})
-    return {"idx": idx, "builds": builds, "hashseed": rng.randrange(0, 1000), "tty": rng.random() < 0.25}
+    seq = {"idx": idx, "builds": builds, "hashseed": rng.randrange(0, 1000), "tty": rng.random() < 0.25}
+    r = rng.random()
+    if r < 0.12 and not seq["tty"]:
+        seq["init"] = "close_fd0"
+    elif r < 0.2 and not seq["tty"]:
+        seq["init"] = "close_stdin"
+    return seq
 
 
 def _run_worker(spec: dict, d: Path, tag: str, hashseed: int, tty: bool = False) -> dict:
@@ -641,12 +667,12 @@ def run_seq(seq: dict, fresh: bool = True) -> dict:
     d = common.scratch_dir("c15")
     try:
         write_seq_project(d / "A")
-        one = _run_worker({"root": str(d / "A"), "builds": seq["builds"]}, d, "seq", seq["hashseed"], tty=bool(seq.get("tty")))
+        one = _run_worker({"root": str(d / "A"), "builds": seq["builds"], "init": seq.get("init")}, d, "seq", seq["hashseed"], tty=bool(seq.get("tty")))
         out = {"inproc": one, "fresh": []}
         if fresh:
             write_seq_project(d / "B")
             for k, b in enumerate(seq["builds"]):
-                r = _run_worker({"root": str(d / "B"), "builds": [b]}, d, f"f{k}", seq["hashseed"], tty=bool(seq.get("tty")))
+                r = _run_worker({"root": str(d / "B"), "builds": [b], "init": seq.get("init")}, d, f"f{k}", seq["hashseed"], tty=bool(seq.get("tty")))
                 out["fresh"].append(r["builds"][0])
         return out
     finally:
@@ -680,11 +706,17 @@ def oracle_c15(seq: dict, obs: dict) -> list:
         if "raised" in rec:
             bad.append(("returns", f"{tag}: pytask.build raised {rec['raised']}", cls))
         bef, aft = rec["before"], rec["after"]
+        sqlite_filled = 0
         method = b["kw"]["capture"]
         configured = rec.get("exit") != 2
         # --- standard streams: descriptors 0-2 and the Python objects
         for i, nm in enumerate(("stdin", "stdout", "stderr")):
             if aft["stat"][i] != bef["stat"][i]:
+                if bef["stat"][i] is None and aft["fds"].get(str(i)) == "/dev/null":
+                    # not pytask: SQLite never keeps a database on descriptors 0-2 — when open() hands it one of them it puts
+                    # /dev/null there (os_unix.c robust_open). Happens with every capture method, also with an in-memory database.
+                    sqlite_filled += 1
+                    continue
                 bad.append(("streams", f"{tag}: descriptor {i} refers to {aft['fds'].get(str(i))!r} after the build, before {bef['fds'].get(str(i))!r}",
                             cls if cls == "F6c" else None))
             if aft["std_same"][i] != bef["std_same"][i] or (not aft["std_same"][i] and aft["std_type"][i] != bef["std_type"][i]):
@@ -694,7 +726,9 @@ def oracle_c15(seq: dict, obs: dict) -> list:
         # --- the rest of the process state
         for key, what in (("cwd", "working directory"), ("filters", "warnings.filters"), ("set_trace_same", "pdb.set_trace"),
                           ("collected", "COLLECTED_TASKS"), ("prov", "TASKS_WITH_PROVISIONAL_NODES"), ("pdb_saved", "PytaskPDB._saved"),
-                          ("report_vars", "ExecutionReport/Traceback class variables")):
+                          ("report_vars", "ExecutionReport/Traceback class variables"),
+                          ("live_stack", "live displays on rich's global console"),
+                          ("pdb_state", "PytaskPDB class attributes (_pluginmanager is None, _config is None, _wrapped_pdb_cls is None, _recursive_debug)")):
             if key == "report_vars":
                 # claimed only for builds that passed configuration (pytask_unconfigure ran): then they are back at the defaults,
                 # whatever an earlier build with a failing configuration left behind
@@ -706,7 +740,7 @@ def oracle_c15(seq: dict, obs: dict) -> list:
                 # F6c: the exception escapes before pytask_unconfigure runs, so nothing is restored
                 bad.append(("misc", f"{tag}: {what} changed: {bef[key]!r} -> {aft[key]!r}", cls if cls == "F6c" else None))
         # --- open descriptors: constant from the second build on
-        if k >= 1 and len(aft["fds"]) > len(bef["fds"]):
+        if k >= 1 and len(aft["fds"]) > len(bef["fds"]) + sqlite_filled:
             new = [l for fd, l in aft["fds"].items() if fd not in bef["fds"] or bef["fds"][fd] != l]
             grown_by = len(aft["fds"]) - len(bef["fds"])
             bad.append(("leak", f"{tag}: {grown_by} more open descriptors than before this build ({len(bef['fds'])} -> {len(aft['fds'])}); new: {sorted(new)}",
@@ -739,6 +773,8 @@ def oracle_c15(seq: dict, obs: dict) -> list:
 
 def model_c15(drv, seq: dict, obs: dict) -> list:
     out = []
+    if seq.get("init"):
+        return out   # a process without descriptor 0: what happens to it is SQLite's doing (see oracle_c15), outside the model
     ini = obs["inproc"]["initial"]
     n0 = len(ini["fds"])
     # initial descriptor table: 0,1,2 are three distinct pipes; every other open descriptor gets a file of its own
@@ -805,7 +841,7 @@ def model_c15(drv, seq: dict, obs: dict) -> list:
 
 
 def canon_c15(seq: dict) -> list:
-    return [[b["sub"], sorted(b["kw"].items()), b.get("ctl"), bool(b.get("corrupt_db"))] for b in seq["builds"]] + (["tty"] if seq.get("tty") else [])
+    return [[b["sub"], sorted(b["kw"].items()), b.get("ctl"), bool(b.get("corrupt_db"))] for b in seq["builds"]] + (["tty"] if seq.get("tty") else []) + ([seq["init"]] if seq.get("init") else [])
 
 
 def corpus_c15() -> list:
@@ -816,6 +852,13 @@ def corpus_c15() -> list:
         return {"sub": sub, "kw": kw}
     return [
         {"idx": -1, "hashseed": 1, "builds": [b("ok", force=True)] * 6},                                   # F6 witness (fixed): leak trend, stdin
+        # F40 witness: post-mortem debugging at verbose=0 / the cached debugger wrapper class of an earlier build
+        {"idx": -13, "hashseed": 13, "builds": [b("fail", capture="sys", verbose=1, pdb=True, pdbcls=["c15pdb", "ContPdb"]),
+                                                b("fail", capture="sys", verbose=0, pdb=True, pdbcls=["c15pdb", "ContPdb"]),
+                                                b("fail", capture="fd", verbose=1, pdb=True, pdbcls=["c15pdb", "ContPdb"]), b("ok", capture="no")]},
+        # the caller has no standard input
+        {"idx": -14, "hashseed": 14, "init": "close_fd0", "builds": [b("ok", capture="fd", force=True), b("ok", capture="sys", force=True), b("fail", capture="fd")]},
+        {"idx": -15, "hashseed": 15, "init": "close_stdin", "builds": [b("ok", capture="fd", force=True), b("ok", capture="no", force=True)]},
         # the warnings plugin switched off while filters are configured (build argument / configuration file), then an unrelated
         # project whose task only warns
         {"idx": -12, "hashseed": 12, "builds": [b("ok", capture="no", disable_warnings=True, filterwarnings=["error::UserWarning"], force=True),
